@@ -22,7 +22,7 @@ EXPLANATION = (
     "least-squares residual relative to the student's vector), vector_phase (in span AND equal norm), MatrixEntryComparer "
     "(np.all over samples, fraction = matches/size, the four credit branches), LinearComparer (< 3 samples -> ConfigError, "
     "zero_compatible_modes, error_calculators table, zero detection, credit iff fit error nearly zero, max by (credit, "
-    "message)), is_nearly_zero (norm(x) <= tolerance, percentage relative to norm(reference)); (D2) in every comparer that "
+    "message), estimators called as (student, expected) and regressing y on x), is_nearly_zero (norm(x) <= tolerance, percentage relative to norm(reference)); (D2) in every comparer that "
     "validates shapes the validation dominates each statement that combines the student's value with the expected ones; "
     "(D3) MatrixGrader.check_response: no handler is shadowed by an earlier one and each handler realises its policy truth "
     "table over suppress_matrix_messages / shape_errors / answer_shape_mismatch.is_raised; validate_student_input_shape "
@@ -30,7 +30,7 @@ EXPLANATION = (
     "pass (student, shape) in that order; (D4) numeric type-state: no ordering comparison is applied to a value derived "
     "from the student's evaluation that may still be complex-typed.")
 NOT_DECIDED = ("that the numeric tests realise the mathematical classes (least squares, tolerances, floating point); the fit-"
-               "error estimators' formulas; which argument of the fit estimators is the student's sample; SumGrader's limit "
+               "error estimators' formulas beyond the orientation of their regressions; SumGrader's limit "
                "checks (C19); behaviour of author-supplied transforms.")
 ASSUMPTIONS = ["comparers are called as comparer(comparer_params_eval, student_eval, utils) by FormulaGrader",
                "np.isreal tests the value, not the type; np.real, abs, np.linalg.norm, len return real-typed values"]
@@ -257,7 +257,7 @@ def d1_between(ctx, idx):
                     r.ok('between_comparer: roles', 'start <= student <= stop', where)
                 elif is_name(a, names[1]) and is_name(b_, names[0]):
                     r.violation('between_comparer: roles', 'start and stop are exchanged: the test is stop <= x <= start', where,
-                                expected='%s <= x <= %s' % tuple(names), found=short(p.leaf.expr))
+                                expected='(first parameter) <= x <= (second parameter)', found=short(p.leaf.expr))
                 else:
                     r.violation('between_comparer: roles', 'the value tested is `%s` between `%s` and `%s`, not the submission between '
                                 'start and stop' % (short(s), short(a), short(b_)), where)
@@ -285,9 +285,16 @@ def d1_eigenvector(ctx, idx):
             raise AnalysisError('eigenvector_comparer: no deciding return')
         for p in finals:
             where = lib.loc(fi, p.leaf.stmt)
+            construct = 'eigenvector_comparer: decision'
+            flipped = [n for n in ast.walk(p.leaf.expr) if isinstance(n, ast.BinOp) and isinstance(n.op, ast.Mult)
+                       and is_name(n.left, S) and is_name(n.right, M)]
+            if flipped:
+                r.violation('eigenvector_comparer: operand order', 'the product is written `%s`: vector*matrix is v.M, the left-eigenvector '
+                            'condition, which differs from M.v for non-symmetric matrices' % short(flipped[0]), where, expected='%s * %s' % (M, S),
+                            found=short(flipped[0]))
+                continue
             binds = {}
             res = nf.classify(['_U.within_tolerance(_X * _S, _Y * _S)'], p.leaf.expr, binds)
-            construct = 'eigenvector_comparer: decision'
             if res == nf.MATCH:
                 x, y, s = binds['_X'], binds['_Y'], binds['_S']
                 if {getattr(x, 'id', None), getattr(y, 'id', None)} == {M, L} and is_name(s, S):
@@ -448,9 +455,19 @@ def d1_entry(ctx, idx):
 
         def check_fraction(x, where):
             """x must be matches/size of the all-samples summary; reports once."""
+            for cpat in ('1 - _X', '1.0 - _X'):
+                cb = nf.match(cpat, x)
+                if cb is not None and nf.classify([FRAC, 'np.sum(_Q) / _Q.size', 'np.mean(_Q)'], cb['_X']) == nf.MATCH:
+                    if not checked_frac[0]:
+                        checked_frac[0] = True
+                        r.violation('MatrixEntryComparer: fraction', 'the quantity tested is 1 - (matching entries)/(entries), the fraction of '
+                                    'WRONG entries: full credit is given when nothing matches and proportional credit is inverted', where,
+                                    expected='np.sum(summary).item()/summary.size', found=short(x, 90))
+                    return False
             binds = {}
             res = nf.classify([FRAC, 'np.sum(_Q) / _Q.size', 'np.mean(_Q)'], x, binds)
             if res != nf.MATCH:
+                res = nf.classify([FRAC], x)      # report differences against the primary form only
                 if not checked_frac[0]:
                     checked_frac[0] = True
                     if isinstance(res, tuple):
@@ -552,7 +569,7 @@ def d1_entry(ctx, idx):
 
 # ----------------------------------------------------------------------------- D1 LinearComparer
 def d1_linear(ctx, idx):
-    r = ctx.rule('D1.LINEAR', 'LinearComparer: sample floor, zero-compatible modes, estimator table, zero detection, best configured credit', floor=13)
+    r = ctx.rule('D1.LINEAR', 'LinearComparer: sample floor, zero-compatible modes, estimator table, zero detection, best configured credit', floor=16)
     with r:
         ci = idx.cls(LC)
         call = idx.func(LC + '.__call__')
@@ -724,6 +741,28 @@ def d1_linear(ctx, idx):
                 r.violation('LinearComparer.__call__: credit rule', 'credit `%s` when the relation holds, `%s` otherwise' %
                             (short(gw) if gw is not None else '?', short(gl) if gl is not None else '?'), where,
                             expected='self.config[mode] / 0')
+            # ROLE: the documented relations are expected = a*student (+ b): every estimator is called as (student samples, expected samples)
+            ecalls = [c for c in ast.walk(comp) if isinstance(c, ast.Call) and isinstance(c.func, ast.Subscript)
+                      and isinstance(c.func.value, ast.Attribute) and c.func.value.attr == 'error_calculators']
+            if not ecalls:
+                r.undecided('LinearComparer.__call__: estimator arguments', 'no call of self.error_calculators[mode](...) found in the result', where)
+            for c in ecalls:
+                if len(c.args) != 2 or c.keywords:
+                    r.undecided('LinearComparer.__call__: estimator arguments', 'call `%s` not recognised' % short(c, 80), where)
+                    continue
+                x, y = c.args
+                xs, xp, ys, yp = mentions(x, S), mentions(x, P), mentions(y, S), mentions(y, P)
+                if xs and not xp and yp and not ys:
+                    r.ok('LinearComparer.__call__: estimator arguments', 'fit of expected against student: (student samples, expected samples)', where)
+                elif xp and not xs and ys and not yp:
+                    r.violation('LinearComparer.__call__: estimator arguments', 'the estimators are called as (expected, student): the relation '
+                                'tested becomes student = a*expected + b instead of expected = a*student + b. The linear fit falls back to '
+                                'the offset error only when its FIRST argument is constant, so a constant nonzero submission now earns the '
+                                '`linear` credit', where,
+                                expected='self.error_calculators[mode](student, expected)', found=short(c, 90))
+                else:
+                    r.undecided('LinearComparer.__call__: estimator arguments', 'arguments `%s`, `%s` are not recognisably the student and '
+                                'expected samples' % (short(x, 40), short(y, 40)), where)
             # the modes compared are the filtered ones, computed from check_comparing_zero(params, student, tolerance)
             src = unparse(comp)
             gvc = [c for c in ast.walk(comp) if isinstance(c, ast.Call) and nf.callee_name(c) == 'get_valid_modes']
@@ -743,6 +782,31 @@ def d1_linear(ctx, idx):
                                 % (arg.value,), where)
                 else:
                     r.undecided('LinearComparer.__call__: mode filter', 'argument `%s` not recognised' % (short(arg, 80) if arg is not None else 'none'), where)
+
+
+        # (f) orientation inside the least-squares estimators: design matrix from x (student), target y (expected)
+        for name in ('get_linear_fit_error', 'get_proportional_fit_error'):
+            ef = idx.func(LMOD + '.' + name)
+            if len(ef.params) != 2:
+                raise AnalysisError('%s: signature changed' % name)
+            X, Y = ef.params
+            ls = [c for c in walk_own(ef.node) if isinstance(c, ast.Call) and nf.callee_name(c) == 'lstsq']
+            if len(ls) != 1 or len(ls[0].args) < 2:
+                raise AnalysisError('%s: expected one np.linalg.lstsq(A, y) call' % name)
+            a0 = lib.inline_locals(ls[0].args[0], ef.node)
+            a1 = lib.inline_locals(ls[0].args[1], ef.node)
+            good = mentions(a0, X) and not mentions(a0, Y) and mentions(a1, Y) and not mentions(a1, X)
+            swapped = mentions(a0, Y) and not mentions(a0, X) and mentions(a1, X) and not mentions(a1, Y)
+            construct = '%s: regression orientation' % name
+            if good:
+                r.ok(construct, 'design matrix from %s, target %s' % (X, Y), lib.loc(ef, ls[0]))
+            elif swapped:
+                r.violation(construct, 'the regression is posed as %s = a*%s (+ b): with the estimator called as (student, expected) this '
+                            'tests student = a*expected (+ b); a constant submission then fits perfectly' % (X, Y), lib.loc(ef, ls[0]),
+                            expected='lstsq(A(%s), %s)' % (X, Y), found=short(ls[0], 80))
+            else:
+                r.violation(construct, 'the least-squares problem `%s` does not regress %s (second argument) on %s (first argument)'
+                            % (short(ls[0], 80), Y, X), lib.loc(ef, ls[0]), expected='lstsq(A(%s), %s)' % (X, Y))
 
 
 # ----------------------------------------------------------------------------- D1 is_nearly_zero
@@ -1006,38 +1070,50 @@ def d3_policy(ctx, idx):
                 continue
             h, cl = hs[0]
             paths = nf.decision_paths(h.body)
-            combos = [(s, p) for s in (True, False) for p in ((True, False) if switch else (None,))]
-            allok = True
-            for s, pol in combos:
-                env = {'suppress_matrix_messages': s}
-                if switch:
-                    env[switch] = pol
-                taken = []
-                for p in paths:
-                    vals = [eval_guard(g, env) for g in p.guards]
-                    if any(v is None for v in vals):
-                        taken = None
-                        break
-                    if all(vals):
-                        taken.append(p)
-                setting = 'suppress_matrix_messages=%s%s' % (s, ', %s=%s' % (switch, pol) if switch else '')
-                construct = 'MatrixGrader.check_response: %s [%s]' % (what, setting)
-                if taken is None or len(taken) != 1:
-                    allok = False
-                    r.undecided(construct, 'handler guards are not a function of the policy switches', lib.loc(fi, h))
-                    continue
-                got = leaf_kind(taken[0].leaf, h.name)
-                want = 'zero-silent' if s else ('raise' if (pol or switch is None) else 'zero-message')
-                where = lib.loc(fi, taken[0].leaf.stmt or h)
-                text = {'zero-silent': 'graded wrong without a message', 'raise': 'the error is re-raised to the student',
-                        'zero-message': 'graded wrong with the error text as message', 'fall': 'the handler falls through (no result)',
-                        'ret-other': 'a result that is not a zero result is returned', 'zero-othermsg': 'graded wrong with another message'}
-                if got == want:
-                    r.ok(construct, text[want], where)
-                else:
-                    allok = False
-                    r.violation(construct, 'with %s: expected "%s" but %s' % (setting, text[want], text.get(got, got)), where,
-                                expected=text[want], found=text.get(got, got))
+            ALL = ['suppress_matrix_messages', 'shape_errors', 'answer_shape_mismatch.is_raised']
+            text = {'zero-silent': 'graded wrong without a message', 'raise': 'the error is re-raised to the student',
+                    'zero-message': 'graded wrong with the error text as message', 'fall': 'the handler falls through (no result)',
+                    'ret-other': 'a result that is not a zero result is returned', 'zero-othermsg': 'graded wrong with another message'}
+            for s_ in (True, False):
+                for pol in ((True, False) if switch else (None,)):
+                    setting = 'suppress_matrix_messages=%s%s' % (s_, ', %s=%s' % (switch, pol) if switch else '')
+                    construct = 'MatrixGrader.check_response: %s [%s]' % (what, setting)
+                    want = 'zero-silent' if s_ else ('raise' if (pol or switch is None) else 'zero-message')
+                    others = [k for k in ALL[1:] if k != switch]
+                    verdict = None      # ('ok', where) | ('bad', got, where, extra) | ('und',)
+                    for vals_o in [(x, y) for x in (True, False) for y in (True, False)][:2 ** len(others)] if others else [()]:
+                        env = {'suppress_matrix_messages': s_}
+                        if switch:
+                            env[switch] = pol
+                        env.update(dict(zip(others, vals_o)))
+                        taken = []
+                        for p in paths:
+                            vals = [eval_guard(g, env) for g in p.guards]
+                            if any(v is None for v in vals):
+                                taken = None
+                                break
+                            if all(vals):
+                                taken.append(p)
+                        if taken is None or len(taken) != 1:
+                            verdict = ('und',)
+                            break
+                        got = leaf_kind(taken[0].leaf, h.name)
+                        where = lib.loc(fi, taken[0].leaf.stmt or h)
+                        if got != want:
+                            extra = ''
+                            if others:
+                                extra = ' (with %s)' % ', '.join('%s=%s' % kv for kv in zip(others, vals_o))
+                            verdict = ('bad', got, where, extra)
+                            break
+                        verdict = verdict or ('ok', where)
+                    if verdict[0] == 'und':
+                        r.undecided(construct, 'handler guards are not a function of the policy switches', lib.loc(fi, h))
+                    elif verdict[0] == 'ok':
+                        r.ok(construct, text[want], verdict[1])
+                    else:
+                        _, got, where, extra = verdict
+                        r.violation(construct, 'with %s%s: expected "%s" but %s' % (setting, extra, text[want], text.get(got, got)), where,
+                                    expected=text[want], found=text.get(got, got))
 
 
 def d3_shape_validation(ctx, idx):
@@ -1359,5 +1435,105 @@ def d4_typestate(ctx, idx):
 
 
 # ------------------------------------------------------------------------ self-test
-MUTANTS = []
-BENIGN = []
+_EIG_ZERO = ("    if utils.within_tolerance(0, np.linalg.norm(student_eval)):\n        return {\n            'ok': False,\n"
+             "            'grade_decimal': 0,\n            'msg': 'Eigenvectors must be nonzero.'\n        }\n")
+_SPAN_ZERO = ("    if utils.within_tolerance(0, np.linalg.norm(student_eval)):\n        return {\n            'ok': False,\n"
+              "            'grade_decimal': 0,\n            'msg': 'Input should be a nonzero vector.'\n        }\n")
+_BETWEEN = "    return start <= np.real(student_eval) <= stop"
+
+MUTANTS = [
+    # ---- D1 / D4: between
+    Mutant('between-lower-strict', CMP, _BETWEEN, "    return start < np.real(student_eval) <= stop", 'D1'),
+    Mutant('between-upper-strict', CMP, _BETWEEN, "    return start <= np.real(student_eval) < stop", 'D1'),
+    Mutant('between-orders-complex-typed-value', CMP, _BETWEEN, "    return start <= student_eval <= stop", 'D4'),
+    Mutant('between-real-refusal-removed', CMP, "    if not np.isreal(student_eval):\n        raise InputTypeError(\"Input must be real.\")\n", "", 'D1'),
+    Mutant('between-real-refusal-inverted', CMP, "    if not np.isreal(student_eval):", "    if np.isreal(student_eval):", 'D1'),
+    Mutant('between-bounds-exchanged', CMP, "    start, stop = comparer_params_eval", "    stop, start = comparer_params_eval", 'D1'),
+    # ---- D1: congruence
+    Mutant('congruence-student-not-reduced', CMP, "    input_reduced = student_eval % modulus", "    input_reduced = student_eval", 'D1'),
+    Mutant('congruence-expected-not-reduced', CMP, "    expected_reduced = expected % modulus", "    expected_reduced = expected", 'D1'),
+    Mutant('congruence-reference-is-student', CMP, "    return utils.within_tolerance(expected_reduced, input_reduced)",
+           "    return utils.within_tolerance(input_reduced, expected_reduced)", 'D1'),
+    # ---- D1: eigenvector / span / phase
+    Mutant('eigen-zero-test-dropped', CMP, _EIG_ZERO, "", 'D1'),
+    Mutant('span-zero-test-dropped', CMP, _SPAN_ZERO, "", 'D1'),
+    Mutant('eigen-left-eigenvector', CMP, "    actual = matrix * student_eval", "    actual = student_eval * matrix", 'D1'),
+    Mutant('eigen-validation-after-products', CMP, "    utils.validate_shape(student_eval, expected_input_shape)\n\n    expected = eigenvalue * student_eval\n    actual = matrix * student_eval\n",
+           "    expected = eigenvalue * student_eval\n    actual = matrix * student_eval\n    utils.validate_shape(student_eval, expected_input_shape)\n", 'D2'),
+    Mutant('span-reference-is-target', CMP, "    return is_nearly_zero(error, utils.tolerance, reference=student_eval)",
+           "    return is_nearly_zero(error, utils.tolerance, reference=comparer_params_eval[0])", 'D1'),
+    Mutant('span-validation-removed', CMP, "    utils.validate_shape(student_eval, comparer_params_eval[0].shape)\n", "", 'D2'),
+    Mutant('span-residual-index', CMP, "    error = np.sqrt(ols[1])", "    error = np.sqrt(ols[0])", 'D1'),
+    Mutant('phase-and-to-or', CMP, "    return in_span and same_magnitude", "    return in_span or same_magnitude", 'D1'),
+    Mutant('phase-magnitude-dropped', CMP, "    return in_span and same_magnitude", "    return in_span", 'D1'),
+    # ---- D1: MatrixEntryComparer
+    Mutant('entry-any-for-all', CMP, "np.all(comparisons_by_eval, axis=0)", "np.any(comparisons_by_eval, axis=0)", 'D1'),
+    Mutant('entry-one-minus-fraction', CMP, "        percent_correct = np.sum(comparisons_summary).item()/num_entries",
+           "        percent_correct = 1 - np.sum(comparisons_summary).item()/num_entries", 'D1'),
+    Mutant('entry-proportional-returns-option', CMP, "            return {'ok': 'partial', 'grade_decimal': percent_correct, 'msg': msg}",
+           "            return {'ok': 'partial', 'grade_decimal': partial_credit, 'msg': msg}", 'D1'),
+    Mutant('entry-full-credit-when-none-match', CMP, "        if percent_correct == 1:\n            return True", "        if percent_correct == 0:\n            return True", 'D1'),
+    Mutant('entry-axis', CMP, "np.all(comparisons_by_eval, axis=0)", "np.all(comparisons_by_eval, axis=1)", 'D1'),
+    Mutant('entry-validation-after-comparison', CMP, "        self.validate(expected_evals, student_evals, utils)\n\n        transform = self.config['transform']\n        expected_evals = [transform(x) for x in expected_evals]",
+           "        transform = self.config['transform']\n        raw_expected = expected_evals\n        expected_evals = [transform(x) for x in expected_evals]", 'D2'),
+    # ---- D1: LinearComparer / is_nearly_zero
+    Mutant('linear-sample-floor-two', LIN, "        if len(student_evals) < 3:", "        if len(student_evals) < 2:", 'D1'),
+    Mutant('linear-zero-modes-edited', LIN, "    zero_compatible_modes = ('equals', 'offset')", "    zero_compatible_modes = ('equals', 'offset', 'proportional')", 'D1'),
+    Mutant('linear-estimators-swapped', LIN, "        'proportional': get_proportional_fit_error,\n        'offset': get_offset_fit_error,",
+           "        'proportional': get_offset_fit_error,\n        'offset': get_proportional_fit_error,", 'D1'),
+    Mutant('linear-zero-needs-both-sides', LIN, "        return student_zero or expected_zero", "        return student_zero and expected_zero", 'D1'),
+    Mutant('linear-zero-any-sample', LIN, "        student_zero = all([", "        student_zero = any([", 'D1'),
+    Mutant('linear-zero-filter-inverted', LIN, "                         if mode in self.zero_compatible_modes)", "                         if mode not in self.zero_compatible_modes)", 'D1'),
+    Mutant('linear-min-for-max', LIN, "        return max(results, key=key)", "        return min(results, key=key)", 'D1'),
+    Mutant('linear-credit-rule-inverted', LIN, "            if is_nearly_zero(error, utils.tolerance, reference=student_evals_norm)",
+           "            if not is_nearly_zero(error, utils.tolerance, reference=student_evals_norm)", 'D1'),
+    Mutant('seeded-C16b-estimator-arguments-exchanged', LIN, "        errors = [self.error_calculators[mode](student, expected) for mode in filtered_modes]",
+           "        errors = [self.error_calculators[mode](expected, student) for mode in filtered_modes]", 'D1'),
+    Mutant('linear-samples-exchanged-at-source', LIN, "        student = np.array(student_evals).flatten()\n        expected = np.array(comparer_params_evals).flatten()",
+           "        student = np.array(comparer_params_evals).flatten()\n        expected = np.array(student_evals).flatten()", 'D1'),
+    Mutant('linear-fit-regresses-x-on-y', LIN, "    A = np.vstack([x, np.ones(len(x))]).T\n    coeffs, residuals, rank, singular_vals = np.linalg.lstsq(A, y, rcond=-1)",
+           "    A = np.vstack([y, np.ones(len(y))]).T\n    coeffs, residuals, rank, singular_vals = np.linalg.lstsq(A, x, rcond=-1)", 'D1'),
+    Mutant('proportional-fit-regresses-x-on-y', LIN, "    A = np.vstack(x)\n    coeffs, residuals, rank, singular_vals = np.linalg.lstsq(A, y, rcond=-1)",
+           "    A = np.vstack(y)\n    coeffs, residuals, rank, singular_vals = np.linalg.lstsq(A, x, rcond=-1)", 'D1'),
+    Mutant('linear-validation-removed', LIN, "            utils.validate_shape(student_evals[0], shape)", "            pass", 'D2'),
+    Mutant('nearly-zero-strict', MF, "    return np.linalg.norm(x) <= tolerance", "    return np.linalg.norm(x) < tolerance", 'D1'),
+    Mutant('nearly-zero-relative-to-itself', MF, "        tolerance = np.linalg.norm(reference) * percentage_as_number(tolerance)",
+           "        tolerance = np.linalg.norm(x) * percentage_as_number(tolerance)", 'D1'),
+    # ---- D3: mismatch policy
+    Mutant('policy-handler-order', MG, "        except ShapeError as err:\n            if self.config['suppress_matrix_messages']:\n                return {'ok': False, 'msg': '', 'grade_decimal': 0}\n            elif self.config['shape_errors']:",
+           "        except (ArgumentShapeError, MathArrayError) as err:\n            if self.config['suppress_matrix_messages']:\n                return {'ok': False, 'msg': '', 'grade_decimal': 0}\n            raise\n        except ShapeError as err:\n            if self.config['suppress_matrix_messages']:\n                return {'ok': False, 'msg': '', 'grade_decimal': 0}\n            elif self.config['shape_errors']:", 'D3'),
+    Mutant('policy-shape-errors-negated', MG, "            elif self.config['shape_errors']:", "            elif not self.config['shape_errors']:", 'D3'),
+    Mutant('policy-mismatch-uses-shape-errors', MG, "            elif self.config['answer_shape_mismatch']['is_raised']:", "            elif self.config['shape_errors']:", 'D3'),
+    Mutant('policy-suppress-ignored', MG, "        except InputTypeError as err:\n            if self.config['suppress_matrix_messages']:", "        except InputTypeError as err:\n            if False:", 'D3'),
+    Mutant('policy-shape-error-full-credit', MG, "                return {'ok': False, 'msg': str(err), 'grade_decimal': 0}", "                return {'ok': True, 'msg': str(err), 'grade_decimal': 1}", 'D3'),
+    Mutant('shapecheck-inverted', MG, "        if expected_shape == input_shape:", "        if expected_shape != input_shape:", 'D3'),
+    Mutant('shapecheck-returns-false', MG, "        raise InputTypeError(msg)\n\n    Utils =", "        return False\n\n    Utils =", 'D3'),
+    Mutant('shapecheck-wrong-class', MG, "        raise InputTypeError(msg)\n\n    Utils =", "        raise ValueError(msg)\n\n    Utils =", 'D3'),
+    Mutant('utils-arguments-exchanged', MG, "            return self.validate_student_input_shape(student_input, shape, detail)",
+           "            return self.validate_student_input_shape(shape, student_input, detail)", 'D3'),
+    Mutant('equality-validates-expected', CMP, "            utils.validate_shape(student_eval, shape)", "            utils.validate_shape(expected_eval, shape)", 'D3'),
+    Mutant('equality-validation-after-comparison', CMP, "        self.validate(expected_eval, student_eval, utils)\n\n        transform = self.config['transform']\n        expected_eval = transform(expected_eval)\n        student_eval = transform(student_eval)\n\n        return utils.within_tolerance(expected_eval, student_eval)",
+           "        transform = self.config['transform']\n        result = utils.within_tolerance(transform(expected_eval), transform(student_eval))\n        self.validate(expected_eval, student_eval, utils)\n        return result", 'D2'),
+]
+
+BENIGN = [
+    Benign('between-through-local', CMP, _BETWEEN, "    value = np.real(student_eval)\n    return start <= value <= stop"),
+    Benign('between-real-attribute', CMP, _BETWEEN, "    return start <= student_eval.real <= stop"),
+    Benign('between-split-chain', CMP, _BETWEEN, "    return np.real(student_eval) >= start and np.real(student_eval) <= stop"),
+    Benign('congruence-inlined', CMP, "    expected_reduced = expected % modulus\n    input_reduced = student_eval % modulus\n    return utils.within_tolerance(expected_reduced, input_reduced)",
+           "    return utils.within_tolerance(expected % modulus, student_eval % modulus)"),
+    Benign('entry-zero-branch-first', CMP, "        if percent_correct == 1:\n            return True\n        elif percent_correct == 0:\n            return {'ok': False, 'grade_decimal': 0, 'msg': msg}",
+           "        if percent_correct == 0:\n            return {'ok': False, 'grade_decimal': 0, 'msg': msg}\n        elif percent_correct == 1:\n            return True"),
+    Benign('linear-floor-negated-form', LIN, "        if len(student_evals) < 3:", "        if not len(student_evals) >= 3:"),
+    Benign('linear-estimator-call-through-local', LIN, "        errors = [self.error_calculators[mode](student, expected) for mode in filtered_modes]",
+           "        calculators = self.error_calculators\n        errors = [calculators[mode](student, expected) for mode in filtered_modes]"),
+    Benign('linear-zero-disjuncts-reordered', LIN, "        return student_zero or expected_zero", "        return expected_zero or student_zero"),
+    Benign('shapecheck-operands-flipped', MG, "        if expected_shape == input_shape:", "        if input_shape == expected_shape:"),
+    Benign('policy-independent-handlers-reordered', MG, "        except ShapeError as err:\n            if self.config['suppress_matrix_messages']:\n                return {'ok': False, 'msg': '', 'grade_decimal': 0}\n            elif self.config['shape_errors']:\n                raise\n            else:\n                return {'ok': False, 'msg': str(err), 'grade_decimal': 0}\n        except InputTypeError as err:\n            if self.config['suppress_matrix_messages']:\n                return {'ok': False, 'msg': '', 'grade_decimal': 0}\n            elif self.config['answer_shape_mismatch']['is_raised']:\n                raise\n            else:\n                return {'ok': False, 'grade_decimal': 0, 'msg': str(err)}",
+           "        except InputTypeError as err:\n            if self.config['suppress_matrix_messages']:\n                return {'ok': False, 'msg': '', 'grade_decimal': 0}\n            elif self.config['answer_shape_mismatch']['is_raised']:\n                raise\n            else:\n                return {'ok': False, 'grade_decimal': 0, 'msg': str(err)}\n        except ShapeError as err:\n            if self.config['suppress_matrix_messages']:\n                return {'ok': False, 'msg': '', 'grade_decimal': 0}\n            elif self.config['shape_errors']:\n                raise\n            else:\n                return {'ok': False, 'msg': str(err), 'grade_decimal': 0}"),
+    Benign('policy-nested-instead-of-elif', MG, "            if self.config['suppress_matrix_messages']:\n                return {'ok': False, 'msg': '', 'grade_decimal': 0}\n            elif self.config['shape_errors']:\n                raise\n            else:\n                return {'ok': False, 'msg': str(err), 'grade_decimal': 0}",
+           "            if not self.config['suppress_matrix_messages']:\n                if self.config['shape_errors']:\n                    raise\n                return {'ok': False, 'msg': str(err), 'grade_decimal': 0}\n            return {'ok': False, 'msg': '', 'grade_decimal': 0}"),
+    Benign('equality-transform-fetched-first', CMP, "        self.validate(expected_eval, student_eval, utils)\n\n        transform = self.config['transform']\n        expected_eval = transform(expected_eval)",
+           "        transform = self.config['transform']\n        self.validate(expected_eval, student_eval, utils)\n        expected_eval = transform(expected_eval)"),
+    Benign('eigen-log-statement', CMP, "    expected = eigenvalue * student_eval\n    actual = matrix * student_eval\n", "    expected = eigenvalue * student_eval\n    actual = matrix * student_eval\n    _unused = len(comparer_params_eval)\n"),
+]
